@@ -11,6 +11,8 @@
 (*   "noWait"          Serve does not wait for the connection goroutines              *)
 (*   "closeErrNoWait"  Serve skips the wait when closing the listener reports an error *)
 (*                     (it was already closed by the operator)                        *)
+(*   "gaugeStoreRace"  the exported goroutine gauge is STORED from a separately        *)
+(*                     updated counter (two steps) instead of being decremented        *)
 EXTENDS Integers, Sequences, FiniteSets, TLC
 
 CONSTANTS Conns, MaxPkts, Defects,
@@ -27,81 +29,91 @@ VARIABLES ctx,       \* "live" | "cancelled"
           hgate,     \* [Conns -> BOOLEAN] the running handler may finish
           wg,        \* wait group counter
           gAcc,      \* serve_accepted gauge
+          gWg,       \* waitgroup_handle_routines_active gauge (what an operator reads)
+          pset,      \* [Conns -> value a finishing goroutine is about to store into gWg, or -1] (defect "gaugeStoreRace")
           npk,       \* packets fed so far (bound)
           sched      \* history of environment actions (emitted as replay schedules)
-vars == << ctx, acc, lis, offered, cs, armed, inp, gate, hgate, wg, gAcc, npk, sched >>
+vars == << ctx, acc, lis, offered, cs, armed, inp, gate, hgate, wg, gAcc, gWg, pset, npk, sched >>
 
 D(x) == x \in Defects
 
 Init == /\ ctx = "live" /\ acc = "poll" /\ lis = "open" /\ offered = {}
         /\ cs = [c \in Conns |-> "none"] /\ armed = [c \in Conns |-> FALSE] /\ inp = [c \in Conns |-> "none"]
         /\ gate = [c \in Conns |-> FALSE] /\ hgate = [c \in Conns |-> FALSE]
-        /\ wg = 0 /\ gAcc = 0 /\ npk = 0 /\ sched = <<>>
+        /\ wg = 0 /\ gAcc = 0 /\ gWg = 0 /\ pset = [c \in Conns |-> -1] /\ npk = 0 /\ sched = <<>>
 
 Env(a) == sched' = IF Record THEN Append(sched, a) ELSE sched
 Same(v) == UNCHANGED v
 
 \* ---- environment ---------------------------------------------------------
 Offer(c) == /\ cs[c] = "none" /\ c \notin offered /\ acc # "returned" /\ offered' = offered \cup {c} /\ Env(<<"offer", c>>)
-            /\ UNCHANGED << ctx, acc, lis, cs, armed, inp, gate, hgate, wg, gAcc, npk >>
+            /\ UNCHANGED << ctx, acc, lis, cs, armed, inp, gate, hgate, wg, gAcc, gWg, pset, npk >>
 Release(c) == /\ ~gate[c] /\ cs[c] = "spawned" /\ gate' = [gate EXCEPT ![c] = TRUE] /\ Env(<<"release", c>>)
-              /\ UNCHANGED << ctx, acc, lis, offered, cs, armed, inp, hgate, wg, gAcc, npk >>
+              /\ UNCHANGED << ctx, acc, lis, offered, cs, armed, inp, hgate, wg, gAcc, gWg, pset, npk >>
 Feed(c, what) == /\ cs[c] \in {"read"} /\ inp[c] \in {"none", "partial"} /\ npk < MaxPkts
                  /\ inp' = [inp EXCEPT ![c] = what] /\ npk' = npk + 1 /\ Env(<<what, c>>)
-                 /\ UNCHANGED << ctx, acc, lis, offered, cs, armed, gate, hgate, wg, gAcc >>
+                 /\ UNCHANGED << ctx, acc, lis, offered, cs, armed, gate, hgate, wg, gAcc, gWg, pset >>
 Hangup(c) == /\ cs[c] = "read" /\ inp[c] \in {"none", "partial"} /\ inp' = [inp EXCEPT ![c] = "eof"] /\ Env(<<"eof", c>>)
-             /\ UNCHANGED << ctx, acc, lis, offered, cs, armed, gate, hgate, wg, gAcc, npk >>
+             /\ UNCHANGED << ctx, acc, lis, offered, cs, armed, gate, hgate, wg, gAcc, gWg, pset, npk >>
 HRelease(c) == /\ cs[c] = "handler" /\ ~hgate[c] /\ hgate' = [hgate EXCEPT ![c] = TRUE] /\ Env(<<"hrel", c>>)
-               /\ UNCHANGED << ctx, acc, lis, offered, cs, armed, inp, gate, wg, gAcc, npk >>
+               /\ UNCHANGED << ctx, acc, lis, offered, cs, armed, inp, gate, wg, gAcc, gWg, pset, npk >>
 Cancel == /\ ctx = "live" /\ ctx' = "cancelled" /\ Env(<<"cancel", 0>>)
-          /\ UNCHANGED << acc, lis, offered, cs, armed, inp, gate, hgate, wg, gAcc, npk >>
+          /\ UNCHANGED << acc, lis, offered, cs, armed, inp, gate, hgate, wg, gAcc, gWg, pset, npk >>
 \* the accept deadline (10 s) expires: Accept returns a temporary error and the loop polls its context
 Kick == /\ acc = "accept" /\ offered = {} /\ acc' = "poll" /\ Env(<<"kick", 0>>)
-        /\ UNCHANGED << ctx, lis, offered, cs, armed, inp, gate, hgate, wg, gAcc, npk >>
+        /\ UNCHANGED << ctx, lis, offered, cs, armed, inp, gate, hgate, wg, gAcc, gWg, pset, npk >>
 \* the operator closes the listener itself (the only way to unblock Accept before its deadline)
 OperatorClose == /\ lis = "open" /\ acc # "returned" /\ lis' = "closed" /\ Env(<<"lclose", 0>>)
-                 /\ UNCHANGED << ctx, acc, offered, cs, armed, inp, gate, hgate, wg, gAcc, npk >>
+                 /\ UNCHANGED << ctx, acc, offered, cs, armed, inp, gate, hgate, wg, gAcc, gWg, pset, npk >>
 \* the read deadline (15 s) of a blocked read expires
 Fire(c) == /\ cs[c] = "read" /\ armed[c] /\ inp[c] \in {"none", "partial"}
            /\ cs' = [cs EXCEPT ![c] = "exit"] /\ Env(<<"fire", c>>)
-           /\ UNCHANGED << ctx, acc, lis, offered, armed, inp, gate, hgate, wg, gAcc, npk >>
+           /\ UNCHANGED << ctx, acc, lis, offered, armed, inp, gate, hgate, wg, gAcc, gWg, pset, npk >>
 
 \* ---- acceptor (Serve) ------------------------------------------------------
 \* Accept on a closed listener fails for good: Serve leaves its loop
 AcceptFatal == /\ acc = "accept" /\ lis = "closed" /\ acc' = "closing"
-               /\ UNCHANGED << ctx, lis, offered, cs, armed, inp, gate, hgate, wg, gAcc, npk, sched >>
+               /\ UNCHANGED << ctx, lis, offered, cs, armed, inp, gate, hgate, wg, gAcc, gWg, pset, npk, sched >>
 Poll == /\ acc = "poll" /\ acc' = IF ctx = "cancelled" THEN "closing" ELSE "accept"
-        /\ UNCHANGED << ctx, lis, offered, cs, armed, inp, gate, hgate, wg, gAcc, npk, sched >>
+        /\ UNCHANGED << ctx, lis, offered, cs, armed, inp, gate, hgate, wg, gAcc, gWg, pset, npk, sched >>
 Accept(c) == /\ acc = "accept" /\ lis = "open" /\ c \in offered
              /\ offered' = offered \ {c} /\ cs' = [cs EXCEPT ![c] = "spawned"]
              /\ wg' = IF D("addInGoroutine") THEN wg ELSE wg + 1
+             /\ gWg' = IF D("addInGoroutine") THEN gWg ELSE gWg + 1
              /\ acc' = "poll"
-             /\ UNCHANGED << ctx, lis, armed, inp, gate, hgate, gAcc, npk, sched >>
+             /\ UNCHANGED << ctx, lis, armed, inp, gate, hgate, gAcc, pset, npk, sched >>
 CloseListener == /\ acc = "closing" /\ lis' = "closed"
                  /\ acc' = IF lis = "closed" /\ D("closeErrNoWait") THEN "returned" ELSE "waiting"
-                 /\ UNCHANGED << ctx, offered, cs, armed, inp, gate, hgate, wg, gAcc, npk, sched >>
+                 /\ UNCHANGED << ctx, offered, cs, armed, inp, gate, hgate, wg, gAcc, gWg, pset, npk, sched >>
 WaitDone == /\ acc = "waiting" /\ (wg = 0 \/ D("noWait")) /\ acc' = "returned"
-            /\ UNCHANGED << ctx, lis, offered, cs, armed, inp, gate, hgate, wg, gAcc, npk, sched >>
+            /\ UNCHANGED << ctx, lis, offered, cs, armed, inp, gate, hgate, wg, gAcc, gWg, pset, npk, sched >>
 
 \* ---- connection goroutine (serve / handle) ---------------------------------
 Start(c) == /\ cs[c] = "spawned" /\ gate[c]
             /\ cs' = [cs EXCEPT ![c] = "loop"] /\ gAcc' = gAcc + 1
             /\ wg' = IF D("addInGoroutine") THEN wg + 1 ELSE wg
-            /\ UNCHANGED << ctx, acc, lis, offered, armed, inp, gate, hgate, npk, sched >>
+            /\ gWg' = IF D("addInGoroutine") THEN gWg + 1 ELSE gWg
+            /\ UNCHANGED << ctx, acc, lis, offered, armed, inp, gate, hgate, pset, npk, sched >>
 LoopTop(c) == /\ cs[c] = "loop"
               /\ IF ctx = "cancelled" THEN cs' = [cs EXCEPT ![c] = "exit"] /\ UNCHANGED armed
                  ELSE cs' = [cs EXCEPT ![c] = "read"] /\ armed' = [armed EXCEPT ![c] = ~D("noDeadline")]
-              /\ UNCHANGED << ctx, acc, lis, offered, inp, gate, hgate, wg, gAcc, npk, sched >>
+              /\ UNCHANGED << ctx, acc, lis, offered, inp, gate, hgate, wg, gAcc, gWg, pset, npk, sched >>
 ReadDone(c) == /\ cs[c] = "read" /\ inp[c] \in {"packet", "eof"}
                /\ cs' = [cs EXCEPT ![c] = IF inp[c] = "packet" THEN "handler" ELSE "exit"]
                /\ inp' = [inp EXCEPT ![c] = "none"] /\ hgate' = [hgate EXCEPT ![c] = FALSE]
-               /\ UNCHANGED << ctx, acc, lis, offered, armed, gate, wg, gAcc, npk, sched >>
+               /\ UNCHANGED << ctx, acc, lis, offered, armed, gate, wg, gAcc, gWg, pset, npk, sched >>
 HandlerDone(c) == /\ cs[c] = "handler" /\ hgate[c] /\ cs' = [cs EXCEPT ![c] = "loop"]
-                  /\ UNCHANGED << ctx, acc, lis, offered, armed, inp, gate, hgate, wg, gAcc, npk, sched >>
-Exit(c) == /\ cs[c] = "exit" /\ cs' = [cs EXCEPT ![c] = "done"] /\ gAcc' = gAcc - 1 /\ wg' = wg - 1
+                  /\ UNCHANGED << ctx, acc, lis, offered, armed, inp, gate, hgate, wg, gAcc, gWg, pset, npk, sched >>
+\* waitGroup.Done: the gauge is decremented (an atomic read-modify-write of the gauge itself) with the counter
+Exit(c) == /\ cs[c] = "exit" /\ gAcc' = gAcc - 1 /\ wg' = wg - 1
+           /\ IF D("gaugeStoreRace")
+              THEN cs' = [cs EXCEPT ![c] = "storing"] /\ pset' = [pset EXCEPT ![c] = wg - 1] /\ UNCHANGED gWg
+              ELSE cs' = [cs EXCEPT ![c] = "done"] /\ gWg' = gWg - 1 /\ UNCHANGED pset
            /\ UNCHANGED << ctx, acc, lis, offered, armed, inp, gate, hgate, npk, sched >>
+StoreGauge(c) == /\ cs[c] = "storing" /\ gWg' = pset[c] /\ pset' = [pset EXCEPT ![c] = -1] /\ cs' = [cs EXCEPT ![c] = "done"]
+                 /\ UNCHANGED << ctx, acc, lis, offered, armed, inp, gate, hgate, wg, gAcc, npk, sched >>
 
-Internal == Poll \/ AcceptFatal \/ CloseListener \/ WaitDone \/ \E c \in Conns : Accept(c) \/ Start(c) \/ LoopTop(c) \/ ReadDone(c) \/ HandlerDone(c) \/ Exit(c)
+Internal == Poll \/ AcceptFatal \/ CloseListener \/ WaitDone \/ \E c \in Conns : Accept(c) \/ Start(c) \/ LoopTop(c) \/ ReadDone(c) \/ HandlerDone(c) \/ Exit(c) \/ StoreGauge(c)
 Environment == Cancel \/ Kick \/ OperatorClose \/ \E c \in Conns : Offer(c) \/ Release(c) \/ Feed(c, "packet") \/ Feed(c, "partial") \/ Hangup(c) \/ HRelease(c) \/ Fire(c)
 Next == Internal \/ Environment
 Spec == Init /\ [][Next]_vars
@@ -119,8 +131,12 @@ Running(c) == cs[c] \in {"spawned", "loop", "read", "handler", "exit"}
 ServeReturnsLast == acc = "returned" => (lis = "closed" /\ \A c \in Conns : ~Running(c))
 \* a finite deadline is armed before every read
 DeadlineArmed == \A c \in Conns : cs[c] = "read" => armed[c]
-GaugesSane == wg >= 0 /\ gAcc >= 0
-AtRestWhenReturned == (acc = "returned" /\ \A c \in Conns : ~Running(c)) => (wg = 0 /\ gAcc = 0)
+GaugesSane == wg >= 0 /\ gAcc >= 0 /\ gWg >= 0
+AtRestWhenReturned == (acc = "returned" /\ \A c \in Conns : ~Running(c)) => (wg = 0 /\ gAcc = 0 /\ gWg = 0)
+\* while Serve runs: the exported gauge counts exactly the connection goroutines that have not finished, so after a
+\* burst, once every connection of it has closed, it is back where it was
+GaugeTracksLive == gWg = Cardinality({ c \in Conns : Running(c) })
+AtRestWhenIdle == (\A c \in Conns : cs[c] \in {"none", "done"}) => (gWg = 0 /\ gAcc = 0 /\ wg = 0)
 \* once cancelled, Serve returns (blocked reads reach their deadline, gates open)
 ShutdownCompletes == (ctx = "cancelled") ~> (acc = "returned")
 =============================================================================
